@@ -1,9 +1,9 @@
 #!/usr/bin/env python3
-"""tools/c06_make_findings.py -- (triage aid) turn /tmp/c06_triage.json into known_findings.json entries
+"""tools/c06_make_findings.py -- (triage aid) turn /verif/findings/c06_triage.json into known_findings.json entries
 and audited_safe.json entries for C06.  Run by hand after triage; the result is committed; checks never write it."""
 import json, re, collections, os
 VERIF = os.path.dirname(os.path.dirname(os.path.abspath(__file__)))
-t = json.load(open("/tmp/c06_triage.json"))
+t = json.load(open("/verif/findings/c06_triage.json"))
 rows, groups = t["rows"], t["groups"]
 direct = dict(t["demo2"])
 for k, v in t["demo"].items():
@@ -91,6 +91,12 @@ findings.append({"id": "KF-C06-cfb-chase-difat", "property": "C06", "also_proper
     "what_fails": "cfb::Cfb::new walks the DIFAT chain (`sector_id = difat.pop()`; source comment: TODO check if in infinite loop) with no other exit: a DIFAT sector whose link points to itself is re-read forever while `difat` grows",
     "demo": "kf_c06_cfb_cyclic_difat_chain_terminates (no result within 15 s)",
     "directly_demonstrated": ["cfb::Cfb::new|R-CHASE|while#1 sector_id"], "site_keys": ["cfb::Cfb::new|R-CHASE|while#1 sector_id"]})
+PIC_KEYS = ["xls::parse_pictures|R-INDEX|index 33 of local.data", "xls::parse_pictures|R-INDEX|[a..] src8+36 of local.data", "xls::parse_pictures|R-INDEX|[a..] src64 of local.data"] + \
+    ["xls::parse_pictures|R-PANIC|panic unreachable" + ("" if i == 1 else "#%d" % i) for i in range(1, 8)]
+findings.append({"id": "KF-C06-xls-parse-pictures", "property": "C06", "rule": "R-INDEX,R-PANIC", "config": "feature picture",
+    "what_fails": "xls::parse_pictures (feature `picture`): an OfficeArtFBSE record shorter than 34 bytes or whose name length points beyond it is indexed unchecked (`r.data[33]`, `&r.data[skip..]`), a blip record with an unlisted instance hits `unreachable!()` (7 arms), and a blip shorter than its header is sliced unchecked (`&r.data[ext_skip.1..]`): Xls::new panics instead of returning Err",
+    "demo": "kf_c06_xls_art_records_hostile (--features picture; 22 inputs, every one of the 10 sites reached: src/xls.rs:1537, 1538, 1548..1602, 1609)",
+    "directly_demonstrated": PIC_KEYS, "site_keys": PIC_KEYS})
 print("findings", len(findings), "sites", sum(len(f["site_keys"]) for f in findings), "audited", len(audited), "leftover groups", len(leftovers))
 for fn, ks in leftovers:
     print("LEFTOVER", fn)
